@@ -251,6 +251,11 @@ class Loops:
         for name, term in self.eval_inv(it, fr, inv):
             if name == "decreases":
                 continue
+            if name.startswith("A_"):
+                # instance of the defining equation of a ghost function at the cursor: assumed
+                it.notes.add(f"ghost definition instance assumed at loop cursor: {name}")
+                it.assume(term)
+                continue
             kind = "property" if name.startswith("P_") else "supporting"
             it.oblige(f"loop{ordinal}/{phase}:{name}", term, kind, site=("inv", lineno, phase, name))
 
